@@ -31,6 +31,7 @@ type Thread struct {
 	waitOps  []Op
 	assigned uintptr // channel a sender handed a value to this blocked receiver on (0: none)
 	parkSeq  int64
+	inQuiet  bool // boundary mode: the thread is inside a run of quiet operations (no scheduling point until it ends)
 }
 
 // PointRec describes one point where more than one alternative existed.
@@ -61,6 +62,7 @@ type Sched struct {
 	Now      int64 // virtual nanoseconds
 	seq      int
 	Fine     bool // quiet shims become decision points
+	Boundary bool // the first quiet operation after a decision-level operation of the same thread is a scheduling point
 	abort    bool
 	OnFinish func() // called once when the execution ends (before unwinding)
 	ids      int64
@@ -95,6 +97,7 @@ type Config struct {
 	MaxSteps int
 	Trace    bool
 	Fine     bool
+	Boundary bool
 	Debug    bool // verify goroutine identity at every shim call
 }
 
@@ -113,7 +116,7 @@ func RunWith(cfg Config, body func(), onFinish func()) *Sched {
 	execSeq++
 	resetChans()
 	parkSeq = 0
-	s := &Sched{ctl: make(chan struct{}), choose: cfg.Choose, MaxSteps: cfg.MaxSteps, tracing: cfg.Trace, Fine: cfg.Fine, OnFinish: onFinish}
+	s := &Sched{ctl: make(chan struct{}), choose: cfg.Choose, MaxSteps: cfg.MaxSteps, tracing: cfg.Trace, Fine: cfg.Fine, Boundary: cfg.Boundary, OnFinish: onFinish}
 	if s.MaxSteps == 0 {
 		s.MaxSteps = 20000
 	}
@@ -294,7 +297,15 @@ func Wait(decision bool, what string, guard func() bool) {
 		runtime.Goexit()
 	}
 	if !decision && !s.Fine && (guard == nil || guard()) {
-		return
+		// Boundary mode: a run of quiet operations (the inside of a primitive of the dependency) stays atomic, but its
+		// first operation is a scheduling point, so another thread can run between a decision-level operation of the
+		// caller (a flag check, a reference count) and the primitive call that follows it.
+		if !s.Boundary || s.cur.inQuiet {
+			return
+		}
+		s.cur.inQuiet = true
+	} else if decision || s.Fine {
+		s.cur.inQuiet = false
 	}
 	t := s.cur
 	t.guard = guard
